@@ -48,7 +48,7 @@ Definition purge (reg : registry) (keys : list key) (m : tmap) (now : Z) : tmap 
 
 Inductive tev :=
 | TSet (k : key) (v : val) (ttl : Z) (tags : list string)
-| TIncr (k : key) (ttl : Z) (tags : list string)
+| TIncr (k : key) (by_ : Z) (ttl : Z) (tags : list string)
 | TDel (k : key)
 | TDelPrefix (p : string)                 (* delete_match(p + "*") *)
 | TDeleteTags (t : string).
@@ -69,10 +69,11 @@ Definition tag_step (reg : registry) (keys : list key) (m : tmap) (now : Z) (e :
   let m := purge reg keys m now in
   match e with
   | TSet k v ttl tags => add_tags (s_write m now k v ttl) now k ttl tags
-  | TIncr k ttl tags =>
+  | TIncr k by_ ttl tags =>
+      (* Memory.incr: the TTL is given only when the new value is 1; the tags are added whatever the new value is *)
       match s_get m now k with
-      | Some (VInt z) => add_tags (s_write m now k (VInt (z + 1)) (if z + 1 =? 1 then ttl else 0)) now k ttl tags
-      | None => add_tags (s_write m now k (VInt 1) ttl) now k ttl tags
+      | Some (VInt z) => add_tags (s_write m now k (VInt (z + by_)) (if z + by_ =? 1 then ttl else 0)) now k ttl tags
+      | None => add_tags (s_write m now k (VInt by_) (if by_ =? 1 then ttl else 0)) now k ttl tags
       | Some _ => m
       end
   | TDel k => match s_look m now k with Some _ => raw_delete reg m now k | None => m end
